@@ -203,7 +203,8 @@ def check_path(segs, d, closed=False):
 
 def run_one(kind, inp):
     if kind == "seg":
-        return check_segment([tuple(p) for p in inp["pts"]], inp["d"])
+        pts, d = [tuple(p) for p in inp["pts"]], inp["d"]
+        return check_segment(pts, d) or oc.stale_check(pts, hash((tuple(pts), d)) & 0xFFFFFF, [("flatten(%r)" % d, lambda g: g.flatten(d))])
     return check_path([[tuple(p) for p in s] for s in inp["segs"]], inp["d"], inp.get("closed", False))
 
 
